@@ -17,8 +17,8 @@ ASSUME = [
     'state-neutral `poll_tasks`)',
     'message-delivery deviations as for C10 (held / lost / duplicated / '
     'stale messages, job started before jobs-submit returned, poll result '
-    'read early and delivered late, extra polls), budget per execution as '
-    'in bounds; one environment event per main-loop iteration',
+    'read early and delivered late, extra polls, two messages batched in '
+    'one main-loop iteration), budget per execution as in bounds',
     'forward moves that skip a stage are accepted (a later message may '
     'overtake an earlier one); any move backwards, sideways '
     '(succeeded <-> failed) or out of submit-failed/expired is a violation, '
@@ -55,7 +55,7 @@ def catalogue(tier: str):
              'all', 1),
             ('subfail-opt', 'a:submit-fail? => b\na? => c', {}, (), ('a',),
              'all', 1),
-            ('custom-retry', 'a:x => b', {'a': {**O1, **RE}}, ('a',), (),
+            ('custom1-retry', 'a:x', {'a': {**O1, **RE}}, ('a',), (),
              'any', 1),
             ('chain-fail', 'a => b', {}, ('a', 'b'), (), 'all', 1),
         ]
@@ -94,7 +94,8 @@ NEED = ('tr:waiting->preparing', 'tr:preparing->submitted',
         'tr:running->failed', 'tr:running->waiting', 'retry:exec',
         'retry:sub', 'tr:preparing->submit-failed',
         'implied-by-later-message', 'implied-checked', 'dev:hold',
-        'dev:lose', 'dev:dup', 'dev:early', 'dev:snap', 'dev:pollcmd')
+        'dev:lose', 'dev:dup', 'dev:early', 'dev:snap', 'dev:pollcmd',
+        'dev:burst')
 
 
 def run(ctx: Ctx) -> Result:
